@@ -165,9 +165,9 @@ type c40ActorRun struct {
 	spans []c40Span
 
 	// resources, touched by the actor goroutine only
-	pubs    []*vcAttachedPub
-	curPub  *vcAttachedPub
-	rdrs    []*c40Rdr
+	pubs     []*vcAttachedPub
+	curPub   *vcAttachedPub
+	rdrs     []*c40Rdr
 	rtsp     *gortsplib.Client
 	rtspDesc *description.Session
 	rtspSeq  uint16
@@ -255,7 +255,7 @@ func (ar *c40ActorRun) exec(w *c40World, s c40Step) string {
 	case "stopper":
 		if s.Op == "shutdown" {
 			w.stopping.Store(true)
-			w.pmReadMu.Lock() // wait for a pointer refresh in progress; later ones see stopping
+			w.pmReadMu.Lock()   // wait for a pointer refresh in progress; later ones see stopping
 			w.pmReadMu.Unlock() //nolint:staticcheck
 			w.c.Core.Close()
 		}
